@@ -2,7 +2,9 @@
    rationals.  DEFINITIONS ONLY.
 
    Part 1 (Section Generic): the algorithm of dist.go:116-178 for an ABSTRACT cdf F : Q -> Q and
-   abstract Bounds (bl, bh), exactly in the order the Go code takes its decisions.
+   abstract Bounds (bl, bh), exactly in the order the Go code takes its decisions.  The bracket
+   expansion is modelled WITH its float64 rounding and overflow (integer operands: exact), the
+   bisection over exact rationals.
    Part 2: Rand (dist.go:197-209).
    Part 3: an executable family of cdfs — piecewise linear, right continuous, with jumps, ramps
    and flat stretches at rational break points — with its exact generalized inverse
@@ -13,11 +15,36 @@ Local Open Scope Q_scope.
 
 (* what the returned closure can do for one argument *)
 Inductive ires :=
-| IVal (x : xreal)            (* returns x *)
-| INoBracket (neg : bool)     (* bracket expansion ran out of fuel, to the left (neg) / right.  In
-                                 float64 the doubling reaches -Inf/+Inf after 1024 steps and the
-                                 code returns that infinity (dist.go:163-167). *)
+| IVal (x : xreal)            (* returns x (XInf: the bracket expansion overflowed, dist.go:163-167) *)
+| INoBracket (neg : bool)     (* model artefact: the expansion was given less fuel than the 1024 trips
+                                 float64 needs to overflow (never with [go_expand_fuel], Proofs:
+                                 [go_fuel_enough]) *)
 | IPanic.                     (* bisectBool panics: "root of f is not bracketed" (alg.go:85-87) *)
+
+(* ---------- the float64 arithmetic of the bracket expansion ----------
+   x1 = 0, xdelta = 1, then hiX+xdelta / loX-xdelta and xdelta *= 2 (dist.go:148-162): every operand is
+   an INTEGER, so the float64 result is the exact integer sum rounded to 53 significant bits, ties to
+   even, and +-Inf when the rounded magnitude reaches 2^1024.  (xdelta *= 2 is exact up to 2^1023; it
+   becomes +Inf only in the trip in which hiX / loX has just become infinite.)
+   None = the sum overflows.  The probes are 2^k - 1 for k <= 53, 2^k for 54 <= k <= 1023, then Inf
+   (Proofs: [go_probes_closed_form]). *)
+Definition f64_round_Z (n : Z) : option Z :=
+  let a := Z.abs n in
+  let l := Z.log2 a in                              (* 2^l <= a < 2^(l+1) for a > 0 *)
+  if (l <? 53)%Z then Some n else
+  let s := (l - 52)%Z in                            (* bits that do not fit *)
+  let q := Z.shiftr a s in
+  let r := Z.land a (Z.ones s) in
+  let half := Z.shiftl 1 (s - 1) in
+  let q' := if (half <? r)%Z || ((r =? half)%Z && Z.odd q) then (q + 1)%Z else q in
+  let v := Z.shiftl q' s in
+  if (2 ^ 1024 <=? v)%Z then None else Some (Z.sgn n * v)%Z.
+
+(* result of the bracket expansion *)
+Inductive bres :=
+| BFound (lo hi : Z)          (* cdf(lo) < y <= cdf(hi) *)
+| BInf (neg : bool)           (* loX reached -Inf (neg) / hiX reached +Inf: the closure returns it *)
+| BFuel.                      (* out of fuel (model artefact, see INoBracket) *)
 
 Section Generic.
   Variable F : Q -> Q.          (* dist.CDF *)
@@ -33,28 +60,33 @@ Section Generic.
 
   (* dist.go:150-156: entered with CDF(hi) < y.
        for hiY < y && hiX != inf { loX, loY, hiX = hiX, hiY, hiX+xdelta; hiY = CDF(hiX); xdelta *= 2 }
-     one unit of fuel = one trip through the body *)
-  Fixpoint expand_right (fuel : nat) (y hi delta : Q) : option (Q * Q) :=
+     one unit of fuel = one trip through the body.  When the sum overflows hiX is +Inf: the code
+     evaluates CDF(+Inf), leaves the loop whatever it is and returns +Inf (dist.go:165-167) *)
+  Fixpoint expand_right (fuel : nat) (y : Q) (hi delta : Z) : bres :=
     match fuel with
-    | O => None
-    | S f => let hi' := hi + delta in
-             if Qltb (F hi') y then expand_right f y hi' (2 * delta) else Some (hi, hi')
+    | O => BFuel
+    | S f => match f64_round_Z (hi + delta)%Z with
+             | None => BInf false
+             | Some hi' => if Qltb (F (inject_Z hi')) y then expand_right f y hi' (2 * delta)%Z else BFound hi hi'
+             end
     end.
 
   (* dist.go:157-162: entered with y <= CDF(lo).
        for y <= loY && loX != -inf { hiX, hiY, loX = loX, loY, loX-xdelta; loY = CDF(loX); xdelta *= 2 } *)
-  Fixpoint expand_left (fuel : nat) (y lo delta : Q) : option (Q * Q) :=
+  Fixpoint expand_left (fuel : nat) (y : Q) (lo delta : Z) : bres :=
     match fuel with
-    | O => None
-    | S f => let lo' := lo - delta in
-             if Qle_bool y (F lo') then expand_left f y lo' (2 * delta) else Some (lo', lo)
+    | O => BFuel
+    | S f => match f64_round_Z (lo - delta)%Z with
+             | None => BInf true
+             | Some lo' => if Qle_bool y (F (inject_Z lo')) then expand_left f y lo' (2 * delta)%Z else BFound lo' lo
+             end
     end.
 
   (* dist.go:146-150: x1, y1 := 0, CDF(0); xdelta := 1; right when y1 < y, else left.
      [true] = expanded to the right *)
   Definition goes_right (y : Q) : bool := Qltb (F 0) y.
-  Definition bracket (fuel : nat) (y : Q) : option (Q * Q) :=
-    if goes_right y then expand_right fuel y 0 1 else expand_left fuel y 0 1.
+  Definition bracket (fuel : nat) (y : Q) : bres :=
+    if goes_right y then expand_right fuel y 0%Z 1%Z else expand_left fuel y 0%Z 1%Z.
 
   (* alg.go:80-102 bisectBool with f x := CDF(x) < y (dist.go:172-175): entered with f lo = true,
      f hi = false;  mid := (high+low)/2;  fmid == flow -> low = mid  else high = mid.
@@ -67,11 +99,11 @@ Section Generic.
               if Qltb (F mid) y then bisect_bool k' y mid hi else bisect_bool k' y lo mid
     end.
 
-  (* the numerical part with its intermediate results: (bracket, final pair) *)
+  (* the numerical part with its intermediate results: (bracket, final pair); None: no finite bracket *)
   Definition invcdf_core (fuel k : nat) (y : Q) : option ((Q * Q) * (Q * Q)) :=
     match bracket fuel y with
-    | None => None
-    | Some (lo, hi) => Some ((lo, hi), bisect_bool k y lo hi)
+    | BFound lo hi => Some ((inject_Z lo, inject_Z hi), bisect_bool k y (inject_Z lo) (inject_Z hi))
+    | _ => None
     end.
 
   (* the closure returned by InvCDF (dist.go:122-177) at a rational y: the UPPER end of the final pair *)
@@ -79,9 +111,10 @@ Section Generic.
     match inv_special y with
     | Some r => IVal r
     | None =>
-        match invcdf_core fuel k y with
-        | None => INoBracket (negb (goes_right y))
-        | Some (_, (_, x2)) => IVal (XFin x2)
+        match bracket fuel y with
+        | BFound lo hi => IVal (XFin (snd (bisect_bool k y (inject_Z lo) (inject_Z hi))))
+        | BInf neg => IVal (XInf neg)
+        | BFuel => INoBracket (negb (goes_right y))
         end
     end.
 
@@ -96,8 +129,47 @@ Section Generic.
     end.
 End Generic.
 
-(* float64 doubling from 1 overflows to Inf at the 1024th step *)
-Definition go_expand_fuel : nat := 1024.
+(* float64: the 1024th sum is 2^1023 + 2^1023 = Inf; any larger fuel gives the same results *)
+Definition go_expand_fuel : nat := 1100.
+
+(* ---------- the probes in closed form ----------
+   The points at which the expansion evaluates the cdf do not depend on the cdf: 1, 3, 7, ..., 2^53 - 1,
+   then 2^54, 2^55, ..., 2^1023 (2^54 - 1 is a tie and rounds to even), then +Inf; mirrored to the left.
+   [bracket_fast] walks over this list instead of redoing the float64 rounding for every level; it is the
+   SAME function as [bracket _ go_expand_fuel] (Proofs: [bracket_fast_correct], for every F and y) and is
+   what the correspondence check executes. *)
+Fixpoint go_probes_from (n : nat) (k p : Z) : list Z :=      (* p = the k-th probe *)
+  match n with
+  | O => []
+  | S m => let p' := (if k <? 53 then 2 * p + 1 else if k =? 53 then 2 * p + 2 else 2 * p)%Z in
+           p' :: go_probes_from m (k + 1)%Z p'
+  end.
+Definition go_probes : list Z := go_probes_from 1023 0%Z 0%Z.
+Definition go_probes_neg : list Z := map Z.opp go_probes.
+Definition go_last_probe : Z := (2 ^ 1023)%Z.
+
+Section Walk.
+  Variable F : Q -> Q.
+  (* the loop of dist.go:150-156 over a given list of probes; [fin]: what happens after the last one *)
+  Fixpoint walk_right (y : Q) (prev : Z) (ps : list Z) (fin : bres) : bres :=
+    match ps with
+    | [] => fin
+    | p :: r => if Qltb (F (inject_Z p)) y then walk_right y p r fin else BFound prev p
+    end.
+  (* dist.go:157-162 *)
+  Fixpoint walk_left (y : Q) (prev : Z) (ps : list Z) (fin : bres) : bres :=
+    match ps with
+    | [] => fin
+    | p :: r => if Qle_bool y (F (inject_Z p)) then walk_left y p r fin else BFound p prev
+    end.
+  Definition bracket_fast (y : Q) : bres :=
+    if goes_right F y then walk_right y 0%Z go_probes (BInf false) else walk_left y 0%Z go_probes_neg (BInf true).
+  Definition invcdf_core_fast (k : nat) (y : Q) : option ((Q * Q) * (Q * Q)) :=
+    match bracket_fast y with
+    | BFound lo hi => Some ((inject_Z lo, inject_Z hi), bisect_bool F k y (inject_Z lo) (inject_Z hi))
+    | _ => None
+    end.
+End Walk.
 
 (* ---------- Rand (dist.go:197-209) ----------
      var y float64; for y == 0 { y = r.Float64() }; return inv(y)
